@@ -305,8 +305,17 @@ def structure_flags(text):
         sync_inval[fname] = m.group(1)
     # resolvePath refuses guest paths with an embedded NUL (before looking at path[0])
     rp = function_body(text, "resolvePath")
-    nul = re.search(r"MUST\s*\(\s*memchr\s*\(\s*path\s*,\s*'\\0'\s*,\s*pathLength\s*\)\s*==\s*NULL\s*\)", rp)
-    rejects_nul = nul is not None and 0 <= rp.find("pathLength > 0") < nul.start() < rp.find("path[0]")
+    nul_re = r"MUST\s*\(\s*memchr\s*\(\s*path\s*,\s*'\\0'\s*,\s*pathLength\s*\)\s*==\s*NULL\s*\)"
+    nuls = [m.start() for m in re.finditer(nul_re, rp)]
+    # shape A (085c0ff): one test right after `pathLength > 0`, before path[0] is looked at
+    shape_a = len(nuls) == 1 and 0 <= rp.find("pathLength > 0") < nuls[0] < rp.find("path[0]")
+    # shape B (f405bde): one test per branch, after that branch's length guard and before its first copy of `path`
+    abs_guard = rp.find("pathLength < PATH_MAX")
+    abs_copy = rp.find("memcpy(result, path")
+    rel_guard = rp.find("totalLength + pathLength + 1 < PATH_MAX")
+    rel_copy = rp.find("memcpy(result, directory")
+    shape_b = (len(nuls) == 2 and 0 <= abs_guard < nuls[0] < abs_copy < rel_guard < nuls[1] < rel_copy)
+    rejects_nul = shape_a or shape_b
     if "memchr" in rp and not rejects_nul:
         raise ExtractFail("wasi.c", "resolvePath: memchr test of an unexpected shape/position")
     return clears, get_rejects, guard("wasiFDReaddir"), guard("wasiFdFdstatGet"), guard("wasiFDFilestatGet"), whence_first, sync_inval, rejects_nul
